@@ -1253,3 +1253,36 @@ def fam_bytes(rng, sid0, n):
                 sc.setmem(0, 0, bytes([0xEE] * size))
         out.append(sig(sc, name, lo))
     return out
+
+
+# --------------------------------------------------------------------------- buffer geometry x every trigger offset
+
+def fam_geom(rng, sid0, n):
+    """Shared buffers of odd size and separate buffers of unequal sizes; an event is triggered k service calls after a command line
+    was fed, for every k across the whole command transaction (enumerated), so the event is formatted / waiting / written while the
+    command machine is in each of its phases (parse, handler, flush of data, acknowledge, next 'AT').  C11 (units intact), C03 (halves)."""
+    out = []
+    geoms = [(13, -1), (27, -1), (16, 9), (12, 20), (41, -1), (14, 6)]
+    kinds = [b"AT+C?\n", b"AT+C=5\r\n", b"AT+L\n", b"AT+C=?\n", b"AT+N\n"]
+    for i in range(n):
+        bufsize, usize = geoms[i % len(geoms)]
+        line = kinds[(i // len(geoms)) % len(kinds)]
+        cC = Cmd("+C", hr=(i // 2) % 3 == 2, hw=True, vars=[Var(UINT, 1, RW, "c", mem=b"\x07")])     # mostly without handlers: nothing but the units themselves is judged
+        cL = Cmd("+L", hx=True)
+        cU = Cmd("+U", hr=(i // 2) % 3 == 1, vars=[Var(UINT, 2, RW, "u", mem=b"\x39\x30")])      # +U=12345: as long as the small halves allow
+        cT = Cmd("+T", desc="t", vars=[Var(INT, 1, RW, None, mem=b"\x80")])
+        sc = Scenario(sid0 + i, [cC, cL, cU, cT], qcap=2, bufsize=bufsize, usize=usize, grain="step", auto="b", meta={"family": "fam_geom"})
+        for _ in range(80):
+            sc.hs(0, "r", "c", ret=R_DATA_OK)
+            sc.hs(0, "w", "c", ret=R_OK)
+            sc.hs(1, "x", "c", ret=R_LIST if (i // 3) % 2 else R_OK)
+            sc.hs(2, "r", "e", ret=R_DATA_OK)
+        for k in range(0, 34):                      # nothing here is drawn at random: the family is an enumeration
+            sc.feed(line)
+            sc.svc(k) if k else None
+            sc.trig(2, "r")
+            if k % 3 == 0:
+                sc.trig(3, "rt"[(k // 3) % 2])
+            sc.settle(4000)
+        out.append(sig(sc, bufsize, usize, line))
+    return out
